@@ -385,7 +385,11 @@ func (r *Rig) goCall(c *RigClient, kind, tok string, plan Plan, preCancelled boo
 		}()
 		switch kind {
 		case "call":
-			p.Res, p.Err = c.C.Call(ctx, tok, plan)
+			if plan.TagFalse {
+				p.Res, p.Err = c.C.CallRF(ctx, tok, plan)
+			} else {
+				p.Res, p.Err = c.C.Call(ctx, tok, plan)
+			}
 		case "retry":
 			if plan.NoCtx {
 				p.Res, p.Err = c.C.RetryNoCtx(tok, plan)
